@@ -41,7 +41,7 @@ pub fn init_accept_all() {
 fn acc33(b: &[u8; 33]) -> bool {
     unsafe { (b[ACC_IDX] & ACC_MASK) == ACC_VAL }
 }
-/// accept predicate for variable-length proofs: a function of the first byte and the length parity
+/// accept predicate for variable-length proofs: never the empty string; otherwise a function of the first byte
 fn acc_var(b: &[u8]) -> bool {
     if b.is_empty() {
         return false;
@@ -191,14 +191,20 @@ pub unsafe extern "C" fn rangeproof_info(
 }
 
 // Surjection proofs: internal representation = (n_inputs := serialized length, data[..len] := serialized bytes).
+// Content is modelled for proofs of up to SURJ_MODEL_MAX bytes.  In "length-only" mode (C12 harnesses that encode into
+// a counting sink, where content is irrelevant) longer proofs are accepted too and only their length is preserved.
 pub const SURJ_MODEL_MAX: usize = 8;
+static mut SURJ_LEN_ONLY: bool = false;
+pub fn surj_len_only_mode() {
+    unsafe { SURJ_LEN_ONLY = true; }
+}
 pub unsafe extern "C" fn surjectionproof_parse(
     _ctx: *const zffi::Context,
     proof: *mut zffi::SurjectionProof,
     input_bytes: *const u8,
     input_len: usize,
 ) -> i32 {
-    if input_len > SURJ_MODEL_MAX {
+    if input_len > SURJ_MODEL_MAX && !(SURJ_LEN_ONLY && input_len <= 8258) {
         return 0;
     }
     let s = core::slice::from_raw_parts(input_bytes, input_len);
@@ -228,7 +234,7 @@ pub unsafe extern "C" fn surjectionproof_serialize(
     proof: *const zffi::SurjectionProof,
 ) -> i32 {
     let n = (*proof).n_inputs;
-    if *outputlen < n || n > SURJ_MODEL_MAX {
+    if *outputlen < n || (n > SURJ_MODEL_MAX && !SURJ_LEN_ONLY) {
         return 0;
     }
     let mut i = 0;
